@@ -184,17 +184,29 @@ def assignedBlock : List Stmt → Option VSet
     | _, _ => none
 end
 
+/-- The name an expression consists of, if it is a bare name (`y = x`, `if c:`, `while t:`). -/
+def bareVar : Expr → List Name
+  | .var y => [y]
+  | _ => []
+
+def bareVarL : List Expr → List Name
+  | [] => []
+  | e :: es => bareVar e ++ bareVarL es
+
 mutual
-/-- Every name a statement may bind, at any depth (assignment targets and `for` variables); total, unlike
-`assignedStmt`. -/
+/-- Every name a statement may bind, at any depth (assignment targets and `for` variables), and every name it reads
+as a bare right-hand side or loop condition (`y = x`, `while t:`, `if b: break` — the places where a value is
+stored or tested without meeting an operator); total, unlike `assignedStmt`.  What the refinement theorems ask of
+attribute parameters is that none of them is among these names. -/
 def targetsStmt : Stmt → List Name
-  | .assign x _ => [x]
-  | .par xs _ => xs
+  | .assign x e => x :: bareVar e
+  | .par xs es => xs ++ bareVarL es
   | .tuple xs _ => xs
   | .badAssign xs _ => xs
   | .ite _ t e => targetsBlock t ++ targetsBlock e
   | .for_ i _ _ body => i :: targetsBlock body
-  | .while_ _ body => targetsBlock body
+  | .while_ c body => bareVar c ++ targetsBlock body
+  | .brk c => bareVar c
   | _ => []
 def targetsBlock : List Stmt → List Name
   | [] => []
